@@ -255,6 +255,129 @@ def synth_probe_body(cr, kind, ckey):
     return body
 
 
+# ---------------------------------------------------------------------------------------------------------------------------------
+# Lazy adaptor chains (`xs.iter().map(f).chain(ys.iter().map(g)).collect()`) as the loops they abbreviate.  Opt-in (hooks.lazy_pipes):
+# map / filter / filter_map / inspect / chain build a PIPE value that remembers its source iterator(s) and closure; Iterator::next on a
+# pipe runs a synthetic body (next on the source, then the closure); collect / extend on a pipe run `loop { match next { Some(x) =>
+# push(x), None => break } }`.  A rule that watches `next` on a source and `Vec::push` therefore sees the same events for a `for` loop
+# and for the adaptor chain.
+PIPE = ("str", "__pipe__")
+PIPE_DECLS = {"std::iter::Iterator::map": "map", "std::iter::Iterator::filter": "filter", "std::iter::Iterator::filter_map": "filter_map",
+              "std::iter::Iterator::inspect": "inspect", "std::iter::Iterator::chain": "chain"}
+PIPE_IDENTITY = ("std::iter::Iterator::copied", "std::iter::Iterator::cloned", "std::iter::Iterator::fuse", "std::iter::Iterator::by_ref",
+                 "std::iter::IntoIterator::into_iter")
+
+
+def is_pipe(v):
+    return isinstance(v, tuple) and v and v[0] == "tuple" and len(v[1]) == 4 and v[1][0] == PIPE
+
+
+def _bool_type(cr):
+    for i, t in enumerate(cr.types):
+        if t.get("n") == "bool":
+            return i
+    return _other_type(cr)
+
+
+def _mcall(meta, decl, args, dest, to, via="trait", path=None):
+    t = {"t": "call", "fn": {"decl": decl, "dkey": decl, "path": path or decl, "key": path or decl, "via": via, "local": 0, "ga": []}, "args": args, "dest": dest, "to": to}
+    t.update(meta)
+    return t
+
+
+def synth_pipe_next_body(cr, kind, ckey):
+    """locals: 0 ret | 1 &mut pipe | 2 source | 3 &mut source | 4 next() result | 5 discr | 6 element | 7 closure (chain: second source) |
+    8 &mut closure | 9 closure result | 10 &element | 11 discr"""
+    ck = ("pipe_next", kind, ckey, id(cr))
+    if ck in _SYNTH:
+        return _SYNTH[ck]
+    other = _other_type(cr)
+    locals_ = [other] * 12
+    clo = cr.fns.get(ckey) if ckey else None
+    if clo is not None:
+        locals_[9] = clo["locals"][0]
+    meta = {"f": "<model of %s::next>" % kind, "ln": 0}
+
+    def stmt(p_, rv):
+        d = {"p": p_, "rv": rv}
+        d.update(meta)
+        return d
+    ret = dict({"t": "return"}, **meta)
+    some = lambda local: {"r": "agg", "ak": "adt", "adt": OPTION, "vi": 1, "vn": "Some", "ops": [{"m": local}]}
+    none = {"r": "agg", "ak": "adt", "adt": OPTION, "vi": 0, "vn": "None", "ops": []}
+    NEXT = "std::iter::Iterator::next"
+    b0 = {"s": [stmt(3, {"r": "ref", "m": 1, "p": 2})], "term": _mcall(meta, NEXT, [{"c": 3}], 4, 1)}
+    b1 = {"s": [stmt(5, {"r": "discr", "p": 4})], "term": dict({"t": "switch", "d": {"m": 5}, "cases": [[0, 2], [1, 3]], "else": 7, "dty": other}, **meta)}
+    unreachable = {"s": [], "term": dict({"t": "unreachable"}, **meta)}
+    take = stmt(6, {"r": "use", "o": {"m": [4, [["dc", 1, "Some"], ["f", 0, "0"]]]}})
+    if kind == "chain":
+        # exhausted first half: continue with the second
+        b2 = {"s": [stmt(8, {"r": "ref", "m": 1, "p": 7})], "term": _mcall(meta, NEXT, [{"c": 8}], 0, 4)}
+        b3 = {"s": [stmt(0, {"r": "use", "o": {"m": 4}})], "term": ret}
+        blocks = [b0, b1, b2, b3, {"s": [], "term": ret}, unreachable, unreachable, unreachable]
+    else:
+        b2 = {"s": [stmt(0, none)], "term": ret}
+        if kind == "map":
+            b3 = {"s": [take, stmt(8, {"r": "ref", "m": 1, "p": 7})], "term": _mcall(meta, "std::ops::FnMut::call_mut", [{"m": 8}, {"m": 6}], 9, 4)}
+            b4 = {"s": [stmt(0, some(9))], "term": ret}
+            blocks = [b0, b1, b2, b3, b4, unreachable, unreachable, unreachable]
+        elif kind == "filter_map":
+            b3 = {"s": [take, stmt(8, {"r": "ref", "m": 1, "p": 7})], "term": _mcall(meta, "std::ops::FnMut::call_mut", [{"m": 8}, {"m": 6}], 9, 4)}
+            b4 = {"s": [stmt(11, {"r": "discr", "p": 9})], "term": dict({"t": "switch", "d": {"m": 11}, "cases": [[0, 0], [1, 5]], "else": 7, "dty": other}, **meta)}
+            b5 = {"s": [stmt(0, {"r": "use", "o": {"m": 9}})], "term": ret}
+            blocks = [b0, b1, b2, b3, b4, b5, unreachable, unreachable]
+        elif kind == "filter":
+            b3 = {"s": [take, stmt(8, {"r": "ref", "m": 1, "p": 7}), stmt(10, {"r": "ref", "m": 0, "p": 6})],
+                  "term": _mcall(meta, "std::ops::FnMut::call_mut", [{"m": 8}, {"c": 10}], 9, 4)}
+            b4 = {"s": [], "term": dict({"t": "switch", "d": {"m": 9}, "cases": [[0, 0]], "else": 5, "dty": _bool_type(cr)}, **meta)}
+            b5 = {"s": [stmt(0, some(6))], "term": ret}
+            blocks = [b0, b1, b2, b3, b4, b5, unreachable, unreachable]
+        else:       # inspect
+            b3 = {"s": [take, stmt(8, {"r": "ref", "m": 1, "p": 7}), stmt(10, {"r": "ref", "m": 0, "p": 6})],
+                  "term": _mcall(meta, "std::ops::FnMut::call_mut", [{"m": 8}, {"c": 10}], 9, 4)}
+            b4 = {"s": [stmt(0, some(6))], "term": ret}
+            blocks = [b0, b1, b2, b3, b4, unreachable, unreachable, unreachable]
+    body = {"key": "model::pipe_next_%s<%s>" % (kind, ckey or ""), "path": "model::pipe_next_%s" % kind, "kind": "fn", "file": "<model>", "line": 0, "hi": 0, "vis": "",
+            "argc": 1, "locals": locals_, "names": [["item", 6]], "blocks": blocks, "promoted": [], "closure": ckey}
+    _SYNTH[ck] = body
+    return body
+
+
+def synth_pipe_drain_body(cr, kind, into_vec):
+    """collect(pipe) / extend(&mut v, pipe) as the loop they abbreviate.
+    locals: 0 ret | 1 pipe | 2 &mut pipe | 3 next() result | 4 discr | 5 element | 6 collection (collect) / &mut collection (extend) |
+    7 &mut collection | 8 unit"""
+    ck = ("pipe_drain", kind, into_vec, id(cr))
+    if ck in _SYNTH:
+        return _SYNTH[ck]
+    other = _other_type(cr)
+    locals_ = [other] * 9
+    meta = {"f": "<model of %s over an adaptor chain>" % kind, "ln": 0}
+
+    def stmt(p_, rv):
+        d = {"p": p_, "rv": rv}
+        d.update(meta)
+        return d
+    ret = dict({"t": "return"}, **meta)
+    push = "std::vec::Vec::push" if into_vec else "model::collect_item"
+    if kind == "collect":
+        b0 = {"s": [], "term": _mcall(meta, "model::opaque", [], 6, 1, via="direct")}
+        target = [stmt(7, {"r": "ref", "m": 1, "p": 6})]
+        done = {"s": [stmt(0, {"r": "use", "o": {"m": 6}})], "term": ret}
+    else:
+        b0 = {"s": [], "term": dict({"t": "goto", "to": 1}, **meta)}
+        target = [stmt(7, {"r": "use", "o": {"c": 6}})]
+        done = {"s": [stmt(0, {"r": "agg", "ak": "tuple", "ops": []})], "term": ret}
+    b1 = {"s": [stmt(2, {"r": "ref", "m": 1, "p": 1})], "term": _mcall(meta, "std::iter::Iterator::next", [{"c": 2}], 3, 2)}
+    b2 = {"s": [stmt(4, {"r": "discr", "p": 3})], "term": dict({"t": "switch", "d": {"m": 4}, "cases": [[0, 3], [1, 4]], "else": 5, "dty": other}, **meta)}
+    b4 = {"s": [stmt(5, {"r": "use", "o": {"m": [3, [["dc", 1, "Some"], ["f", 0, "0"]]]}})] + target, "term": _mcall(meta, push, [{"c": 7}, {"m": 5}], 8, 1, via="direct")}
+    b5 = {"s": [], "term": dict({"t": "unreachable"}, **meta)}
+    body = {"key": "model::pipe_%s" % kind, "path": "model::pipe_%s" % kind, "kind": "fn", "file": "<model>", "line": 0, "hi": 0, "vis": "",
+            "argc": 1 if kind == "collect" else 2, "locals": locals_, "names": [["item", 5]], "blocks": [b0, b1, b2, done, b4, b5], "promoted": []}
+    _SYNTH[ck] = body
+    return body
+
+
 def _other_type(cr):
     for i, t in enumerate(cr.types):
         if t["k"] == "other":
@@ -867,8 +990,9 @@ class AI:
                 res = ("bool", x > y)
             elif base == "Ge":
                 res = ("bool", x >= y)
-            if res is not None and res[0] == "int" and base == "Add" and res[1] >= CAP and x >= 0 and y >= 0 and min(x, y) <= 1:
-                res = ("ge", CAP)
+            cap = getattr(self, "cap", None) or CAP     # a rule that bounds its loops itself (concrete lengths) may raise the cap
+            if res is not None and res[0] == "int" and base == "Add" and res[1] >= cap and x >= 0 and y >= 0 and min(x, y) <= 1:
+                res = ("ge", cap)
         elif a[0] == "ge" and b[0] == "int":
             k, y = a[1], b[1]
             if base == "Add" and y >= 0:
@@ -1002,6 +1126,10 @@ class AI:
                 st.frames.append(nf)
                 return [st]
             return None
+        if getattr(self.hooks, "lazy_pipes", False) and to is not None and args:
+            pm = self.pipe_model(st, frame, term, callee, args, to)
+            if pm is not None:
+                return pm
         pk = PROBE_DECLS.get(M.norm_path(callee.get("decl", "")))
         if pk is not None and to is not None and len(args) == 2 and len(st.frames) < self.max_depth:
             fv = self.resolve(st, args[1])
@@ -1040,6 +1168,79 @@ class AI:
         nf.ret_to = to
         st.frames.append(nf)
         return [st]
+
+    def pipe_model(self, st, frame, term, callee, args, to):
+        """lazy adaptor chains (see PIPE above) -> None | list of successor states"""
+        decl = M.norm_path(callee.get("decl", ""))
+
+        def arg_val(v):
+            v = self.resolve(st, v)
+            if v[0] == "ref":
+                inner = self.resolve(st, self.read_at(st, v[1], v[2]))
+                if is_pipe(inner):
+                    return inner
+            return v
+
+        def is_cursor(v):
+            return v[0] == "tuple" and len(v[1]) == 3 and v[1][0] == ("str", "__array_cursor__")
+
+        def done(val):
+            self.write_place(st, frame, term["dest"], val)
+            frame.bb = to
+            return [st]
+
+        def push(body, locs):
+            if len(st.frames) >= self.max_depth + 4:
+                return None
+            nf = Frame(body["key"], body, "%s%s:%d>" % (frame.prefix, short(frame.fkey), frame.bb), len(st.frames))
+            for i, v in locs.items():
+                nf.locals[i] = v
+            nf.ret_place = term["dest"]
+            nf.ret_to = to
+            st.frames.append(nf)
+            return [st]
+        kind = PIPE_DECLS.get(decl)
+        if kind is not None and len(args) == 2 and not callee.get("local"):
+            src = arg_val(args[0])
+            if is_cursor(src) or src[0] not in ("sym", "tuple"):
+                return None
+            if kind == "chain":
+                other = arg_val(args[1])
+                if is_cursor(other) or other[0] not in ("sym", "tuple"):
+                    return None
+                return done(("tuple", (PIPE, ("str", kind), src, other)))
+            fv = self.resolve(st, args[1])
+            if fv[0] == "closure" and fv[1] in self.cr.fns and self.cr.fns[fv[1]]["argc"] == 2:
+                return done(("tuple", (PIPE, ("str", kind), src, fv)))
+            return None
+        if decl in PIPE_IDENTITY and len(args) == 1 and not callee.get("local"):
+            v = arg_val(args[0])
+            if is_pipe(v):
+                return done(v)
+            return None
+        if decl == "std::iter::Iterator::next" and len(args) == 1:
+            v = self.resolve(st, args[0])
+            if v[0] == "ref":
+                p = self.resolve(st, self.read_at(st, v[1], v[2]))
+                if is_pipe(p):
+                    kind = p[1][1][1]
+                    ckey = p[1][3][1] if kind != "chain" else None
+                    return push(synth_pipe_next_body(self.cr, kind, ckey), {1: args[0], 2: p[1][2], 7: p[1][3]})
+            return None
+        if decl in ("std::iter::Iterator::collect", "std::iter::FromIterator::from_iter") and len(args) == 1:
+            v = arg_val(args[0])
+            if is_pipe(v):
+                dty, _ = M.place_ty(self.cr, None, term["dest"], frame.body)
+                into_vec = bool(dty is not None and (dty.adt_path() or "").endswith("vec::Vec"))
+                return push(synth_pipe_drain_body(self.cr, "collect", into_vec), {1: v})
+            return None
+        if decl == "std::iter::Extend::extend" and len(args) == 2:
+            v = arg_val(args[1])
+            if is_pipe(v):
+                rty = self.operand_ty(frame, term["args"][0])
+                into_vec = bool(rty is not None and (rty.strip_refs().adt_path() or "").endswith("vec::Vec"))
+                return push(synth_pipe_drain_body(self.cr, "extend", into_vec), {1: v, 6: args[0]})
+        return None
 
     def model_call(self, st, frame, term, callee, args):
         """Built-in models of a few std functions. -> None | list of (state, value)"""
